@@ -117,4 +117,27 @@ def add(run, tier):
             run.failed('rt.normrelpath', 'E4/bounded', '%s -> %s' % (base, target), dict(base=base, target=target, result=r), observed=why,
                        required='resolving the result against the directory of base designates target', replayed=True)
             break
-    run.bounded_check('rt.normrelpath', 'all pairs of %d absolute POSIX paths' % len(_paths()), n)
+    # the result may not depend on the working directory: bases directly in the root, targets below / beside the current directory
+    import os
+    import tempfile
+    here = os.getcwd()
+    tmp = tempfile.mkdtemp(prefix='vf-cwd-')
+    try:
+        os.makedirs(os.path.join(tmp, 'app', 'src'))
+        done = False
+        for cwd in (os.path.join(tmp, 'app'), os.path.join(tmp, 'app', 'src'), tmp):
+            os.chdir(cwd)
+            for base in ('/out.js', '/bundle.js.map', posixpath.join(tmp, 'out.js'), posixpath.join(cwd, 'maps', 'out.js.map')):
+                for target in (posixpath.join(cwd, 'src', 'x.js'), posixpath.join(posixpath.dirname(cwd), 'y.js'), '/z.js', posixpath.join(cwd, 'x.js')):
+                    n += 1
+                    r = utils.normrelpath(base, target)
+                    if not done and resolve(base, r) != posixpath.normpath(target):
+                        why = 'with working directory %r: normrelpath(%r, %r) = %r resolves to %r' % (cwd, base, target, r, resolve(base, r))
+                        run.failed('rt.normrelpath', 'E4/bounded', 'cwd | %s -> %s' % (base, target.replace(tmp, '<tmp>')), dict(base=base, target=target, result=r, cwd=cwd),
+                                   observed=why.replace(tmp, '<tmp>'), required='resolving the result against the directory of base designates target, whatever the working directory', replayed=True)
+                        done = True
+    finally:
+        os.chdir(here)
+        import shutil
+        shutil.rmtree(tmp, ignore_errors=True)
+    run.bounded_check('rt.normrelpath', 'all pairs of %d absolute POSIX paths; bases in the root directory x 3 working directories' % len(_paths()), n)
